@@ -1,0 +1,32 @@
+//go:build verif
+
+package cache
+
+import "sync"
+
+// VerifLockHook, when set, is called before every acquisition of a cache mutex (sub-cache and cached
+// entity), with "Lock" or "RLock". A test harness uses it to inject delays at lock boundaries, which
+// widens the windows between two critical sections. It must be set before the cache is used.
+var VerifLockHook func(op string)
+
+type rwMutex struct {
+	m sync.RWMutex
+}
+
+func (l *rwMutex) Lock() {
+	if h := VerifLockHook; h != nil {
+		h("Lock")
+	}
+	l.m.Lock()
+}
+
+func (l *rwMutex) Unlock() { l.m.Unlock() }
+
+func (l *rwMutex) RLock() {
+	if h := VerifLockHook; h != nil {
+		h("RLock")
+	}
+	l.m.RLock()
+}
+
+func (l *rwMutex) RUnlock() { l.m.RUnlock() }
